@@ -29,7 +29,7 @@ def path_value(rnd, special):
 def make_fields(rnd, uid):
     """event-level and calendar-level properties: (name, text as written, value the reader must see)"""
     special = rnd.random() < 0.12; long_ = rnd.random() < 0.06
-    ev = [('UID', uid, uid), ('SUMMARY', None, text_value(rnd, special, long_))]
+    ev = [('UID', None, uid), ('SUMMARY', None, text_value(rnd, special, long_))]
     def opt(p, name, gen):
         if rnd.random() < p:
             v = gen(); ev.append((name, None, v))
@@ -43,10 +43,14 @@ def make_fields(rnd, uid):
     for name in ('X-ECHS-MAIL-OUT', 'X-ECHS-MAIL-ERR', 'X-ECHS-MAIL-RUN'):
         if rnd.random() < 0.4:
             b = rnd.choice([0, 1]); ev.append((name, rnd.choice(['0', 'false', 'F']) if b == 0 else rnd.choice(['1', 'true', 'yes', '2']), b))
-    if rnd.random() < 0.35: ev.append(('ORGANIZER', rnd.choice(['mailto:', '']) + 'boss@example.com', 'boss@example.com'))
+    if rnd.random() < 0.35:
+        a = 'boss@example.com' if not special else rnd.choice(['boss\\admin@example.com', 'a,b@example.com', 'x;y@example.com'])
+        ev.append(('ORGANIZER', rnd.choice(['mailto:', '']) + ical_escape(a), a))
     # now and then a crowd of attendees: the written task is longer than the 4 KiB buffer of the writer
     for _ in range(rnd.choice([0, 0, 1, 2, 3]) if rnd.random() < 0.93 else rnd.randint(40, 220)):
-        a = 'u%d@example.org' % rnd.randint(1, 99); ev.append(('ATTENDEE', rnd.choice(['mailto:', '']) + a, a))
+        a = 'u%d@example.org' % rnd.randint(1, 99)
+        if special and rnd.random() < 0.5: a = rnd.choice(['u\\%d', 'u,%d', 'u;%d']) % rnd.randint(1, 99) + '@example.org'
+        ev.append(('ATTENDEE', rnd.choice(['mailto:', '']) + ical_escape(a), a))
     cal = []
     def num(lst, name, p, gen, fmt):
         if rnd.random() < p:
@@ -163,6 +167,7 @@ def run(tier, seed):
     cases = []
     for i in range(n):
         uid = 'j%d' % i + ''.join(rnd.choice('abcdefghij-') for _ in range(rnd.choice([0, 1, 2, 3, 4, 5, 6, 7, 8, 9, 12, 13, 16, 29])))       # unique, of every length modulo 4
+        if rnd.random() < 0.05: uid += rnd.choice(['\\x', ',y', ';z', '\\', ',', ' @host'])                                                # characters the text form escapes
         ev, cal, special, long_ = make_fields(rnd, uid)
         sl, sd = schedule(rnd)
         evl = lines_of(ev, rnd); pos = rnd.randint(0, len(evl)); body = evl[:pos] + sl + evl[pos:] if rnd.random() < 0.5 else sl + evl
